@@ -249,7 +249,7 @@ func premiseUploadPartIndex(r *core.Run, ctx *oblig.Ctx, s *oblig.Site) (bool, s
 		return false, "UploadPart has no partNumber parameter"
 	}
 	ia, ok := s.Instr.(*ssa.IndexAddr)
-	if !ok || ia.Index != ssa.Value(pn) {
+	if !ok || core.Forward(ia.Index) != ssa.Value(pn) {
 		return false, "the index is not the partNumber parameter itself"
 	}
 	// all callers: partNumber >= 1
@@ -289,7 +289,7 @@ func premiseUploadPartIndex(r *core.Run, ctx *oblig.Ctx, s *oblig.Site) (bool, s
 			continue
 		}
 		for _, f := range ctx.FactsAt(st) {
-			if f.Op == token.GEQ && f.X == ssa.Value(pn) && isLenCall(f.Y) {
+			if f.Op == token.GEQ && core.Forward(f.X) == ssa.Value(pn) && isLenCall(f.Y) {
 				sv := r.P.SliceOf(st.Val, core.SliceOpts{Depth: -1})
 				if sv.HasValue(pn) && sv.Has("call:builtin:append") && core.Reaches(st, s.Instr) {
 					grown = true
@@ -1186,6 +1186,10 @@ func rule094(r *core.Run, ctx *oblig.Ctx, undischarged map[*ssa.Function][]strin
 		deferred := false
 		for _, o2 := range a.Ops() {
 			if o2.Instr.Parent() == fn && o2.Deferred && !o2.Acquire && o2.Class == op.Class {
+				deferred = true
+			}
+			// the deferred unlock of a helper expanded into fn (internal/inline) runs at its return sites
+			if o2.Instr.Parent() == fn && !o2.Acquire && o2.Class == op.Class && r.P.Inline != nil && r.P.Inline.DeferSites[o2.Instr.Pos()] {
 				deferred = true
 			}
 		}
